@@ -145,7 +145,8 @@ def build_field(df, me, f, emb, alt=0):
         else:
             names = ["a", "b", "c", "d"][:nv]
             foreign = None if alt % 2 else "q"
-            kw = dict(vdims=names, vdim_mapping={names[k]: (dims[mp[k] - 1] if mp[k] else foreign) for k in range(nv)})
+            kw = dict(vdims=names, vdim_mapping=fldmod.scramble(
+                {names[k]: (dims[mp[k] - 1] if mp[k] else foreign) for k in range(nv)}, alt // 2 + mp[0]))
     return df.Field(mesh, nvdim=nv, value=src_array(me, f), **kw)
 
 
